@@ -408,7 +408,13 @@ func RunTLC(env *Env, o TLCOpts) *TLCResult {
 		if len(tail) > 4000 {
 			tail = tail[len(tail)-4000:]
 		}
-		Broken("TLC failed (exit %d) on %s %s:\n%s", res.ExitCode, o.Module, o.Config, tail)
+		first := ""
+		for _, l := range strings.Split(res.Out, "\n") {
+			if strings.HasPrefix(l, "Error:") || strings.Contains(l, "Exception") {
+				first += l + "\n"
+			}
+		}
+		Broken("TLC failed (exit %d) on %s %s:\n%s...\n%s", res.ExitCode, o.Module, o.Config, first, tail)
 	}
 	if violated && res.Violated == "" {
 		res.Violated = "unknown"
